@@ -136,6 +136,29 @@ def run_case(ctx, mr, case):
             c = fc.Contract(f, data, fail, writable=False)
             c.run(fc.gen_ops(rng, len(data), 4, writable=False))
             f.close()
+    # several handles on one entry alive at the same time (opened under different spellings): each has its own position, a fresh
+    # handle starts at 0 whatever the others did, and closing one leaves the others usable
+    for name, data in files[:3]:
+        try:
+            a = r.open(name)
+            a.read(len(data) // 2 + 1)
+            b = r.open(rng.choice([name, '/' + name, name + '.bin']))
+            first = b.read(5)
+            a.seek(0)
+            c = r.open('/' + name + '.bin')
+            c.seek(2)
+            rest_b, got_a, got_c = b.read(), a.read(), c.read(3)
+            a.close()
+            after = (b.seek(0), b.read())
+            ctx.stat('handles_on_one_entry')
+            if a is b or b is c or (first, rest_b, got_a, got_c, after) != (data[:5], data[5:], data, data[2:5], (0, data)):
+                ctx.diff('oracle', 'exefs-handles-share-state', dict(case, entry=name), 'independent handles', 'handles that share a position or a close',
+                         f'two handles on entry {name!r} alive at the same time are not independent')
+            b.close()
+            c.close()
+        except Exception as ex:
+            ctx.diff('oracle', 'exefs-handles-share-state', dict(case, entry=name), 'independent handles', pyenv.errname(ex),
+                     f'two handles on entry {name!r} alive at the same time: {pyenv.errname(ex)}')
     stored = {n for n, _ in files}
     for _ in range(3):
         probe = gen_name(rng, stored)
